@@ -90,6 +90,7 @@ contract(
     ],
     raises={'ChildNotFound': {}, 'ChildNotValid': {}},
     modifies=[],
+    allocates=['Dd', 'Dv.V', 'La.V', 'Ll'],
     properties=['C14'],
     notes='interface contract: assumed at call sites on a statically typed Element; proved for the overrides in k3_element.py',
 )
@@ -200,4 +201,128 @@ contract(
     modifies=['self.list[]', 'idx_list(self, self.list[index if index >= 0 else index + len(self.list)].name)[]'],
     allocates=False,
     properties=['C09', 'C10', 'C12'],
+)
+
+
+# ---------------------------------------------------------------------------------------------------
+# The attach path.  S = expression of the ElementList, C = expression of the child.
+def appended(seq_item, seq_len, what):
+    """clause: sequence == old sequence ++ [what]"""
+    return ('{ln} == old({ln}) + 1 and {last} is {what} and all({item_k} is old({item_k}) for k in range(old({ln})))'
+            .format(ln=seq_len, last=seq_item('old(%s)' % seq_len), item_k=seq_item('k'), what=what))
+
+
+def real_attach(S, C):
+    """effects of attaching C as a real child at the end of S (append, entry state (a) or (c))"""
+    return [
+        ('list_appended', appended(lambda i: '%s.list[%s]' % (S, i), 'len(%s.list)' % S, C)),
+        ('byname_appended', 'idx_has({S}, {C}.name) and '.format(S=S, C=C) +
+         appended(lambda i: 'idx_item(%s, %s.name, %s)' % (S, C, i), 'idx_len(%s, %s.name)' % (S, C), C)),
+        ('other_names_kept', 'dict_same_except(%s.indexes, %s.name)' % (S, C)),
+        ('byname_object_kept', 'implies(old(idx_has({S}, {C}.name)), idx_list({S}, {C}.name) is old(idx_list({S}, {C}.name)))'
+         .format(S=S, C=C)),
+        ('left_traversal_index',
+         'implies(old(tidx_has({S}, {C}.name)), '.format(S=S, C=C) + removed_first(
+             lambda i: 'tidx_item_of(old(tidx_list(%s, %s.name)), %s)' % (S, C, i),
+             'list_len_of(old(tidx_list(%s, %s.name)))' % (S, C), C) + ')'),
+        ('traversal_key', 'implies(tidx_has({S}, {C}.name), old(tidx_has({S}, {C}.name)) and '
+                          'tidx_list({S}, {C}.name) is old(tidx_list({S}, {C}.name)))'.format(S=S, C=C)),
+        ('other_traversal_kept', 'dict_same_except(%s.traversal_indexes, %s.name)' % (S, C)),
+        ('sep', 'sep(%s)' % S),
+    ]
+
+
+def guard(cond, clauses, prefix):
+    return [('%s.%s' % (prefix, n), 'implies(%s, %s)' % (cond, c)) for n, c in clauses]
+
+
+ST_A = 'old(child._parent) is self.element'
+ST_B = 'old(child._parent) is not self.element and old(child._traversal_parent) is self.element'
+ST_C = 'old(child._parent) is not self.element and old(child._traversal_parent) is not self.element'
+
+UNCHANGED_VIEW = ('list_unchanged(self.list) and dict_unchanged(self.indexes) and '
+                  'idx_len(self, child.name) == old(idx_len(self, child.name)) and '
+                  'implies(old(idx_has(self, child.name)), list_unchanged(old(idx_list(self, child.name))))')
+UNCHANGED_TRAVERSAL = ('dict_unchanged(self.traversal_indexes) and '
+                       'implies(old(tidx_has(self, child.name)), list_unchanged(old(tidx_list(self, child.name))))')
+
+ATTACH_MODIFIES = ['self.list[]', 'self.indexes{}', 'idx_list(self, child.name)[]', 'self.traversal_indexes{}',
+                   'tidx_list(self, child.name)[]', 'child._parent', 'child._traversal_parent',
+                   'field Segment._last_child_index']
+
+ATTACH_RAISES = {
+    # C12: a rejected attach leaves the target's view unchanged; `no_half_attach` is the parent pointer of the child
+    n: {'ensures': [('view_unchanged', UNCHANGED_VIEW),
+                    ('no_half_attach', 'child._parent is old(child._parent)')]}
+    for n in ('ChildNotValid', 'ChildNotFound', 'MaxChildLimitReached', 'OperationNotAllowed')
+}
+
+# interface: admissibility of a child for its parent class (K3 proves the overrides)
+contract(
+    'hl7apy.core:Element._is_valid_child',
+    sig={'self': 'Element', 'child': 'Element'},
+    returns='bool',
+    interface=True,
+    ensures=[],
+    raises={'ChildNotFound': {}, 'ChildNotValid': {}},
+    modifies=[],
+    allocates=False,
+    properties=['C05'],
+    notes='interface contract (pure): assumed where the container calls it',
+)
+
+CARD_OK = ('implies(is_strict(self.element.validation_level) and dhas(self.element.repetitions, child.name) and '
+           'dget(self.element.repetitions, child.name)[1] > -1, '
+           'old(idx_len(self, child.name)) + 1 <= dget(self.element.repetitions, child.name)[1])')
+
+contract(
+    'hl7apy.core:ElementList._can_add_child',
+    sig={'self': 'ElementList', 'child': 'Element'},
+    returns='bool',
+    requires=['sep(self)', 'self.element.children is self'],
+    ensures=[
+        ('true_iff_already_linked', 'result == (old(child._parent) is self.element or old(child._traversal_parent) is self.element)'),
+        # state (a)/(b): checks only, nothing written
+        ('linked.same_level', 'implies(result, child.validation_level == self.element.validation_level)'),
+        ('linked.same_version', 'implies(result, child.version == self.element.version)'),
+        ('linked.cardinality', 'implies(result, %s)' % CARD_OK),
+        ('linked.nothing_written', 'implies(result, %s and %s and '
+                                   'child._parent is old(child._parent) and '
+                                   'child._traversal_parent is old(child._traversal_parent))'
+         % (UNCHANGED_VIEW, UNCHANGED_TRAVERSAL)),
+    ] + guard('not result', real_attach('self', 'child'), 'fresh') + [
+        ('fresh.parent_set', 'implies(not result, child._parent is self.element and child._traversal_parent is None)'),
+        ('sep', 'sep(self)'),
+    ],
+    raises=ATTACH_RAISES,
+    modifies=ATTACH_MODIFIES,
+    allocates=['La.R', 'Ll'],
+    properties=['C05', 'C09', 'C10', 'C12'],
+)
+
+OWNED = 'self.element.children is self'
+
+TRAV_APPENDED = ('tidx_has(self, child.name) and ' +
+                 appended(lambda i: 'tidx_item(self, child.name, %s)' % i, 'tidx_len(self, child.name)', 'child') +
+                 ' and dict_same_except(self.traversal_indexes, child.name) and %s' % UNCHANGED_VIEW)
+
+contract(
+    'hl7apy.core:ElementList.append',
+    sig={'self': 'ElementList', 'child': 'Element'},
+    returns='none',
+    requires=['sep(self)', OWNED],
+    ensures=(
+        guard('(%s) or (%s)' % (ST_A, ST_C), real_attach('self', 'child'), 'real') +
+        [('real.links', 'implies((%s) or (%s), child._parent is self.element)' % (ST_A, ST_C)),
+         ('fresh.traversal_cleared', 'implies(%s, child._traversal_parent is None)' % ST_C),
+         ('linked.links_kept', 'implies(%s, child._traversal_parent is old(child._traversal_parent))' % ST_A),
+         # read path (C11): a child whose temporary parent is this element only enters the traversal index
+         ('traversal.only_traversal_index', 'implies(%s, %s)' % (ST_B, TRAV_APPENDED)),
+         ('traversal.links_kept', 'implies(%s, child._parent is old(child._parent) and '
+                                  'child._traversal_parent is self.element)' % ST_B),
+         ('sep', 'sep(self)')]),
+    raises=ATTACH_RAISES,
+    modifies=ATTACH_MODIFIES,
+    allocates=['La.R', 'Ll'],
+    properties=['C09', 'C10', 'C11', 'C12'],
 )
